@@ -3,6 +3,7 @@ package interp
 import (
 	"fmt"
 	"go/constant"
+	"go/token"
 	"log"
 	"math"
 	"path/filepath"
@@ -35,6 +36,77 @@ var constOp = map[action]func(*node){
 	aBitNot: bitNotConst,
 	aNeg:    negConst,
 	aPos:    posConst,
+
+	aEqual:        compareConst,
+	aNotEqual:     compareConst,
+	aLower:        compareConst,
+	aLowerEqual:   compareConst,
+	aGreater:      compareConst,
+	aGreaterEqual: compareConst,
+}
+
+var compareToken = map[action]token.Token{
+	aEqual:        token.EQL,
+	aNotEqual:     token.NEQ,
+	aLower:        token.LSS,
+	aLowerEqual:   token.LEQ,
+	aGreater:      token.GTR,
+	aGreaterEqual: token.GEQ,
+}
+
+// constOperand returns the exact value of n if it is a boolean, numeric or
+// string constant, untyped or typed, or nil.
+func constOperand(n *node) constant.Value {
+	if !n.rval.IsValid() || isBinVar(n) {
+		return nil
+	}
+	if c, ok := n.rval.Interface().(constant.Value); ok {
+		return c
+	}
+	switch n.rval.Kind() {
+	case reflect.Bool:
+		return constant.MakeBool(n.rval.Bool())
+	case reflect.String:
+		return constant.MakeString(n.rval.String())
+	}
+	return typedNumConst(n)
+}
+
+// compareConst computes the result of a comparison of constant operands.
+// The value of n is left invalid if an operand is not a constant.
+func compareConst(n *node) {
+	c0, c1 := constOperand(n.child[0]), constOperand(n.child[1])
+	if c0 == nil || c1 == nil {
+		return
+	}
+	switch k0, k1 := c0.Kind(), c1.Kind(); {
+	case k0 == constant.Unknown || k1 == constant.Unknown:
+		return
+	case k0 == constant.Bool || k0 == constant.String || k1 == constant.Bool || k1 == constant.String:
+		if k0 != k1 {
+			return
+		}
+	}
+	n.rval = reflect.ValueOf(constant.Compare(c0, compareToken[n.action], c1))
+}
+
+// logicalConst computes the result of a && or || operation on constant operands.
+// The value of n is left invalid if an operand is not a constant.
+func logicalConst(n *node) {
+	c0, c1 := constOperand(n.child[0]), constOperand(n.child[1])
+	if c0 == nil || c1 == nil || c0.Kind() != constant.Bool || c1.Kind() != constant.Bool {
+		return
+	}
+	b := constant.BoolVal(c0) && constant.BoolVal(c1)
+	if n.action == aLor {
+		b = constant.BoolVal(c0) || constant.BoolVal(c1)
+	}
+	n.rval = reflect.ValueOf(b)
+	if t := n.typ.TypeOf(); t != nil && t.Kind() == reflect.Bool {
+		n.rval = n.rval.Convert(t)
+	}
+	n.gen = nop
+	n.findex = notInFrame
 }
 
 var constBltn = map[string]func(*node){
@@ -105,7 +177,10 @@ func (interp *Interpreter) cfg(root *node, sc *scope, importPath, pkgName string
 					n.typ = dest.typ
 				}
 			case binaryExpr, unaryExpr, parenExpr:
-				n.typ = n.anc.typ
+				if !isComparisonAction(n.anc.action) {
+					// The operands of a comparison do not have the type of its result.
+					n.typ = n.anc.typ
+				}
 			}
 
 		case defineStmt:
@@ -1815,6 +1890,7 @@ func (interp *Interpreter) cfg(root *node, sc *scope, importPath, pkgName string
 			if n.start.action == aNop {
 				n.start.gen = branch
 			}
+			logicalConst(n)
 
 		case lorExpr:
 			if isBlank(n.child[0]) || isBlank(n.child[1]) {
@@ -1830,6 +1906,7 @@ func (interp *Interpreter) cfg(root *node, sc *scope, importPath, pkgName string
 			if n.start.action == aNop {
 				n.start.gen = branch
 			}
+			logicalConst(n)
 
 		case parenExpr:
 			wireChild(n)
